@@ -11,6 +11,8 @@ VERIF = os.environ.get('VERIF_ROOT', '/verif')
 REPO = os.environ.get('VERIF_REPO', '/repo')
 BUILD = os.environ.get('VERIF_BUILD', os.path.join(VERIF, 'build'))
 NPROC = os.cpu_count() or 8
+# evidence and replays belong to /repo itself: a run against another tree (mutation / seed testing) writes them beside its build
+OUT = VERIF if os.path.realpath(REPO) == '/repo' else os.path.join(BUILD, 'out')
 
 FORBIDDEN = re.compile(r'\b(Admitted|admit|Axiom|Axioms|Parameter|Parameters|Conjecture|Admit Obligations|'
                        r'Unset Guard Checking|Unset Positivity Checking|Unset Universe Checking|bypass_check|'
@@ -109,8 +111,8 @@ class Ctx:
                     self.known_hit.append((key, t))
                 return 'known'
         if any(v[0] == key for v in self.violations): return 'dup'
-        os.makedirs(os.path.join(VERIF, 'replays'), exist_ok=True)
-        path = os.path.join(VERIF, 'replays', '%s_%s.json' % (self.pid, re.sub(r'[^A-Za-z0-9_.-]', '_', key)[:80]))
+        os.makedirs(os.path.join(OUT, 'replays'), exist_ok=True)
+        path = os.path.join(OUT, 'replays', '%s_%s.json' % (self.pid, re.sub(r'[^A-Za-z0-9_.-]', '_', key)[:80]))
         with open(path, 'w') as f:
             json.dump({'property': self.pid, 'key': key, 'what': text, 'found_failing_input': found_input,
                        'seed': self.seed, 'tier': self.tier, 'replay': replay}, f, indent=1, default=str)
@@ -128,8 +130,8 @@ class Ctx:
               'coverage': self.cov, 'assumptions': self.assumptions, 'wall_s': round(time.time() - self.t0, 2),
               'violations': len(self.violations), 'known_findings_hit': [k for k, _ in self.known_hit],
               'notes': self.notes}
-        os.makedirs(os.path.join(VERIF, 'evidence'), exist_ok=True)
-        with open(os.path.join(VERIF, 'evidence', self.pid + '.json'), 'w') as f:
+        os.makedirs(os.path.join(OUT, 'evidence'), exist_ok=True)
+        with open(os.path.join(OUT, 'evidence', self.pid + '.json'), 'w') as f:
             json.dump(ev, f, indent=1, default=str)
         self.log('done: %d evaluations, %d distinct non-trivial, %d/%d obligations, %d violation(s), %d known finding(s)' % (
             self.cov['evaluations'], self.cov['distinct_nontrivial'], self.cov['discharged'], self.cov['obligations'],
